@@ -126,6 +126,10 @@ Print Assumptions c05_limit_ends_failed.
    store a; k counts the resumes that went through - neither rejected with an engine error (those leave
    the session as it is) nor answered by failing the session because countWaits() had reached
    MaxResumesPerSession.  A session cannot be resumed more often than the configured maximum: *)
+(* What the engine does with a resume that does NOT go through because the limit is reached is C10's
+   c10_impossible_fails ([resume_limit_reached] is one of its three conditions): the call returns normally, the session
+   is failed with exactly one failure event and nothing else changes - so "went through" below is observable: the
+   session is not failed by the limit. *)
 From Verif Require Import proofs.EngineResumes.
 
 Theorem c05_resume_bound : forall (a : assets) (k : nat) (s : session),
@@ -260,3 +264,30 @@ Theorem c05_truncate_exact : forall (s : text) (limit : Z),
      length (firstn (Z.to_nat (limit - 3)) s ++ ellipsis) = Z.to_nat limit).
 Proof. intros s limit. split; [apply trunc_exact|apply trunc_ellipsis_exact]. Qed.
 Print Assumptions c05_truncate_exact.
+
+
+(* ---- the same for ANY well-formed session, not only those the model reaches ------------------------------------
+   The argument of Resume is in practice a session read back from storage.  The resume theorems above are stated for
+   [reachable s]; their proofs need only the invariant [post_inv s] (C01: c01_invariant_preserved - every call keeps
+   it), which ReadSession does not check (assumption: a stored session the host hands back satisfies it). *)
+Theorem c05_resume_terminates_post_inv : forall (a : assets) (s : session) (r : resume) (tmo : text),
+  post_inv s -> resume_session a s r tmo <> Resumed ROutOfFuel.
+Proof. exact resume_fuel_suffices. Qed.
+Print Assumptions c05_resume_terminates_post_inv.
+
+Theorem c05_resume_no_go_error_post_inv : forall (a : assets) (s : session) (r : resume) (tmo : text) (y : st),
+  valid_assets a -> post_inv s -> resume_session a s r tmo <> Resumed (RGoError y).
+Proof. exact resume_no_go_error. Qed.
+Print Assumptions c05_resume_no_go_error_post_inv.
+
+Theorem c05_resume_step_bound_post_inv : forall (a : assets) (s : session) (r : resume) (tmo : text) (x' : st),
+  post_inv s -> resume_session a s r tmo = Resumed (ROk x') ->
+  (Z.of_nat (tot (session_ x')) <= Z.of_nat (tot s) + Z.max 0 (max_steps (a_opts a)))%Z.
+Proof. exact resume_step_bound. Qed.
+Print Assumptions c05_resume_step_bound_post_inv.
+
+Theorem c05_limit_event_means_failed_post_inv : forall (a : assets) (s : session) (r : resume) (tmo : text) (x' : st),
+  post_inv s -> resume_session a s r tmo = Resumed (ROk x') ->
+  has_limit_event (sp_events (sprint_ x')) = true -> s_status (session_ x') = SFailed.
+Proof. exact resume_limit_event_failed. Qed.
+Print Assumptions c05_limit_event_means_failed_post_inv.
